@@ -226,23 +226,28 @@ Proof.
   repeat split; try assumption. exists tf. rewrite field_coerce by exact Hp. exact Htf.
 Qed.
 
+(* from_dict as coded on to_dict's document *)
+Lemma hourly_from_to : forall s d, wf_hourly s -> hourly_to_doc s = Some d ->
+  hourly_from_doc paths d = Some (with_hsettings s (coerce paths (hs_settings s))).
+Proof.
+  intros s d Hwf Hd. unfold hourly_from_doc. rewrite (hourly_from_to_gen true s d Hwf Hd).
+  destruct (hs_edge_coeffs s); reflexivity.
+Qed.
+
 (* the reloaded model is a fixed point: serialising and reloading it again gives the same object *)
 Lemma hourly_reserialise_l : forall s d, forallb (path_avoids "train_features") paths = true ->
-  wf_hourly s -> hourly_to_doc s = Some d -> hs_edge_coeffs s <> None ->
+  wf_hourly s -> hourly_to_doc s = Some d ->
   let s' := with_hsettings s (coerce paths (hs_settings s)) in
   hourly_from_doc paths d = Some s' /\
   exists d', hourly_to_doc s' = Some d' /\ hourly_from_doc paths d' = Some s'.
 Proof.
-  intros s d Hp Hwf Hd He s'. unfold hourly_from_doc.
-  pose proof (hourly_from_to_gen false s d Hwf Hd) as H1.
-  destruct (hs_edge_coeffs s) eqn:Ee; [|contradiction]. split; [exact H1|].
+  intros s d Hp Hwf Hd s'. split; [exact (hourly_from_to s d Hwf Hd)|].
   destruct (to_doc_with_hsettings s (coerce paths (hs_settings s)) d Hd) as [d' Hd']. exists d'. split; [exact Hd'|].
-  pose proof (hourly_from_to_gen false s' d' (wf_with_hsettings s Hp Hwf) Hd') as H2.
-  unfold s' in H2 at 1. cbn [with_hsettings hs_edge_coeffs] in H2. rewrite Ee in H2. rewrite H2.
+  rewrite (hourly_from_to s' d' (wf_with_hsettings s Hp Hwf) Hd').
   unfold s'. cbn [with_hsettings hs_settings]. rewrite coerce_idem. reflexivity.
 Qed.
 
-Lemma hourly_roundtrip_fields_l : forall s d, wf_hourly s -> hourly_to_doc s = Some d -> hs_edge_coeffs s <> None ->
+Lemma hourly_roundtrip_fields_l : forall s d, wf_hourly s -> hourly_to_doc s = Some d ->
   exists s', hourly_from_doc paths d = Some s' /\
     hs_settings s' = coerce paths (hs_settings s) /\ hs_edge_coeffs s' = hs_edge_coeffs s /\
     hs_clusters s' = hs_clusters s /\ hs_bin_edges s' = hs_bin_edges s /\
@@ -252,23 +257,26 @@ Lemma hourly_roundtrip_fields_l : forall s d, wf_hourly s -> hourly_to_doc s = S
     hs_tz s' = hs_tz s /\ hs_warnings s' = hs_warnings s /\ hs_dq s' = hs_dq s /\ hs_error s' = hs_error s /\
     hs_version s' = hs_version s.
 Proof.
-  intros s d Hwf Hd He. unfold hourly_from_doc. rewrite (hourly_from_to_gen false s d Hwf Hd).
-  destruct (hs_edge_coeffs s) eqn:E; [|contradiction].
-  eexists. split; [reflexivity|]. unfold with_hsettings.
-  cbn [hs_settings hs_clusters hs_bin_edges hs_edge_coeffs hs_ts_features hs_cat_features hs_loc hs_scale hs_y hs_coef
-       hs_intercept hs_metrics hs_warnings hs_dq hs_error hs_tz hs_version].
-  rewrite E. repeat split.
+  intros s d Hwf Hd. rewrite (hourly_from_to s d Hwf Hd). eexists. split; [reflexivity|]. repeat split.
 Qed.
 
-Lemma hourly_edge_keys_restored_l : forall s d n, wf_hourly s -> hourly_to_doc s = Some d -> hs_edge_coeffs s <> None ->
+Definition edge_lookup_opt (n : Z) (e : option (list (Z * list (string * float)))) : option (list (string * float)) :=
+  match e with Some l => edge_lookup n l | None => None end.
+
+Lemma hourly_edge_keys_restored_l : forall s d n, wf_hourly s -> hourly_to_doc s = Some d ->
   exists s', hourly_from_doc paths d = Some s' /\
-    match hs_edge_coeffs s', hs_edge_coeffs s with
-    | Some l', Some l => edge_lookup n l' = edge_lookup n l
-    | _, _ => False
-    end.
+    edge_lookup_opt n (hs_edge_coeffs s') = edge_lookup_opt n (hs_edge_coeffs s).
 Proof.
-  intros s d n Hwf Hd He. destruct (hourly_roundtrip_fields_l s d Hwf Hd He) as (s' & Hs & _ & Hedge & _).
-  exists s'. split; [exact Hs|]. rewrite Hedge. destruct (hs_edge_coeffs s); [reflexivity | contradiction].
+  intros s d n Hwf Hd. destruct (hourly_roundtrip_fields_l s d Hwf Hd) as (s' & Hs & _ & Hedge & _).
+  exists s'. split; [exact Hs|]. rewrite Hedge. reflexivity.
+Qed.
+
+(* regression witness: the reader before c3a9d07e fails exactly on the models fitted without edge bins *)
+Lemma hourly_before_fix : forall s d, wf_hourly s -> hourly_to_doc s = Some d ->
+  (hourly_from_doc_before_c3a9d07e paths d = None <-> hs_edge_coeffs s = None).
+Proof.
+  intros s d Hwf Hd. unfold hourly_from_doc_before_c3a9d07e. rewrite (hourly_from_to_gen false s d Hwf Hd).
+  destruct (hs_edge_coeffs s); split; intros H; try reflexivity; discriminate.
 Qed.
 
 End RoundTrip.
@@ -291,12 +299,10 @@ Definition reads_values : Prop :=
                             hi_intercept := hi_intercept i; hi_tz := hi_tz i; hi_dq := hi_dq i |} d.
 
 Lemma hourly_predict_restored_l : reads_values -> forall s d, wf_hourly s -> hourly_to_doc s = Some d ->
-  hs_edge_coeffs s <> None ->
   exists s', hourly_from_doc paths d = Some s' /\
              forall x, predict_fn (inputs_of s') x = predict_fn (inputs_of s) x.
 Proof.
-  intros Hrv s d Hwf Hd He. unfold hourly_from_doc. rewrite (hourly_from_to_gen paths false s d Hwf Hd).
-  destruct (hs_edge_coeffs s) eqn:Ee; [|contradiction].
+  intros Hrv s d Hwf Hd. rewrite (hourly_from_to paths s d Hwf Hd).
   eexists. split; [reflexivity|]. intros x. rewrite (Hrv (inputs_of s) x). reflexivity.
 Qed.
 End Predict.
